@@ -130,6 +130,10 @@ func (p *Parser) parseIter(t *tree.Tree, level *int) (prevTok Token, err error) 
 					err = errors.New("nil node at depth > 0")
 					return
 				}
+				if nnodes > 0 {
+					err = errors.New("newick Error: An open parenthesis after the end of the tree... Forgot a ';' at the end of previous tree?")
+					return
+				}
 				node = t.NewNode()
 				node.SetId(nnodes)
 				nnodes++
